@@ -260,6 +260,8 @@ def sql_facts(tree, src):
        added CTEs appended after the query's own; qualify defaults to True and runs first on the catalog's schema cache;
        skip_own   : `if <table>.name in <own cte names> [and not <table>.db]: continue` with
                     <own cte names> = {cte.alias_or_name for cte in <q>.ctes} computed before the loop        (True | absent: False)
+       hash_user  : in the SELECT branch, between _create_df and _convert_leaf_to_cte:
+                    df.expression = df._replace_cte_names_with_hashes(df.expression, <own cte names>)          (True | absent: False)
        user_only  : the (table node, target) pairs are collected in a list and exactly those nodes are retargeted
                     after the loop (True)  |  a dict keyed by the node + <q>.transform(...) over every equal node (False)"""
     fn = py2v.find_method(tree, "_BaseSession", "sql")
@@ -338,6 +340,7 @@ def sql_facts(tree, src):
             raise Untranslatable("session.sql: node-keyed mapping without the transform that applies it")
     # ---- skip references to the query's own CTEs
     skip_own = False
+    own_set = None
     for st in loop.body:
         if isinstance(st, ast.If) and len(st.body) == 1 and isinstance(st.body[0], ast.Continue) and not st.orelse:
             t = st.test
@@ -351,8 +354,8 @@ def sql_facts(tree, src):
                     extra_ok = len(rest_) == 1 and isinstance(rest_[0], ast.UnaryOp) and isinstance(rest_[0].op, ast.Not) \
                         and dotted(rest_[0].operand) == tvar + ".db"
                 # the set must be the query's own CTE names, computed before the loop
-                defs = [x for x in blk.body[: blk.body.index(loop)] if isinstance(x, ast.Assign)
-                        and dotted(x.targets[0]) == setname]
+                defs = [x for x in blk.body[: blk.body.index(loop)] + fn.body[: fn.body.index(blk)]
+                        if isinstance(x, ast.Assign) and dotted(x.targets[0]) == setname]
                 ok = (len(defs) == 1 and isinstance(defs[0].value, ast.SetComp)
                       and dotted(defs[0].value.elt) == "cte.alias_or_name" and len(defs[0].value.generators) == 1
                       and dotted(defs[0].value.generators[0].iter) == (qd or "") + ".ctes"
@@ -360,6 +363,7 @@ def sql_facts(tree, src):
                 if not (ok and extra_ok):
                     raise Untranslatable("session.sql: a `continue` on the table name of an unrecognised shape")
                 skip_own = True
+                own_set = setname
             elif not (isinstance(t, ast.UnaryOp) and isinstance(t.op, ast.Not)):
                 raise Untranslatable("session.sql: an unrecognised `continue` in the splice loop")
     # ---- skip CTE names already present
@@ -381,7 +385,61 @@ def sql_facts(tree, src):
                 app_ok = True
     if not app_ok:
         raise Untranslatable("session.sql: added CTEs are not appended after the query's own (`<q>.ctes + ctes_to_add`)")
-    return {"hash": py2v.src_hash(fn, src), "skip_own": skip_own, "user_only": user_only}
+    # ---- the SELECT branch that wraps the spliced query as a DataFrame
+    sel_ifs = [st for st in fn.body if isinstance(st, ast.If) and isinstance(st.test, ast.Call)
+               and dotted(st.test.func) == "isinstance" and [dotted(a) for a in st.test.args] == ["expression", "exp.Select"]]
+    if len(sel_ifs) != 1:
+        raise Untranslatable("session.sql: `if isinstance(expression, exp.Select):` not found exactly once")
+    wrap = _body(sel_ifs[0])
+
+    def is_assign(st, target, callee, args):
+        return (isinstance(st, ast.Assign) and len(st.targets) == 1 and dotted(st.targets[0]) == target
+                and isinstance(st.value, ast.Call) and dotted(st.value.func) == callee
+                and [dotted(a) for a in st.value.args] == args and not st.value.keywords)
+    ok_first = wrap and is_assign(wrap[0], "df", "self._create_df", ["expression"])
+    ok_last = wrap and is_assign(wrap[-1], "df", "df._convert_leaf_to_cte", [])
+    mid = wrap[1:-1] if ok_first and ok_last else None
+    if mid == []:
+        hash_user = False
+    elif mid is not None and len(mid) == 1 and own_set is not None \
+            and is_assign(mid[0], "df.expression", "df._replace_cte_names_with_hashes", ["df.expression", own_set]):
+        hash_user = True      # exactly the query's own CTEs (the set the splice loop skips) are renamed
+    else:
+        raise Untranslatable("session.sql: the SELECT branch is not create / [rename the CTEs to hash names] / freeze")
+    return {"hash": py2v.src_hash(fn, src), "skip_own": skip_own, "user_only": user_only, "hash_user": hash_user}
+
+
+def hash_rename_facts(tree, src):
+    """dataframe._replace_cte_names_with_hashes: after the renaming loop, are CTEs that ended with the same name AND the
+    same body reduced to the first one?   old: mapping = {}; for ...; return            -> False
+                                           new: ... + the de-duplication block           -> True"""
+    fn = py2v.find_method(tree, "BaseDataFrame", "_replace_cte_names_with_hashes")
+    body = _body(fn)
+    if len(body) < 3 or not isinstance(body[1], ast.For) or not isinstance(body[-1], ast.Return) \
+            or dotted(body[-1].value) != "expression":
+        raise Untranslatable("_replace_cte_names_with_hashes: body shape")
+    extra = body[2:-1]
+    if not extra:
+        return {"dedupe": False, "hash": py2v.src_hash(fn, src)}
+    loops = [st for st in extra if isinstance(st, ast.For)]
+    ifs = [st for st in extra if isinstance(st, ast.If)]
+    if len(loops) != 1 or len(ifs) != 1 or len(extra) != 4:
+        raise Untranslatable("_replace_cte_names_with_hashes: unrecognised statements after the renaming loop")
+    lp = loops[0]
+    keep = [n for n in ast.walk(lp) if isinstance(n, ast.If)]
+    same_name = any(isinstance(n, ast.Call) and isinstance(n.func, ast.Attribute) and n.func.attr == "setdefault"
+                    and n.args and dotted(n.args[0]) == "cte.alias_or_name" for n in ast.walk(lp))
+    ok_keep = False
+    if len(keep) == 1 and isinstance(keep[0].test, ast.BoolOp) and isinstance(keep[0].test.op, ast.Or) and len(keep[0].test.values) == 2:
+        a, b = keep[0].test.values
+        ok_keep = (isinstance(a, ast.Compare) and isinstance(a.ops[0], ast.Is) and dotted(a.comparators[0]) == "cte"
+                   and isinstance(b, ast.Compare) and isinstance(b.ops[0], ast.NotEq)
+                   and {dotted(b.left), dotted(b.comparators[0])} == {dotted(a.left) + ".this", "cte.this"})
+    sets = [n for n in ast.walk(ifs[0]) if isinstance(n, ast.Call) and isinstance(n.func, ast.Attribute) and n.func.attr == "set"
+            and n.args and isinstance(n.args[0], ast.Constant) and n.args[0].value == "expressions"]
+    if dotted(lp.iter) == "expression.ctes" and same_name and ok_keep and len(sets) == 1:
+        return {"dedupe": True, "hash": py2v.src_hash(fn, src)}
+    raise Untranslatable("_replace_cte_names_with_hashes: the de-duplication does not keep the first of equal (name, body) CTEs")
 
 
 def rename_facts(tree, src):
@@ -425,17 +483,20 @@ def generate(repo: str):
     sq = sql_facts(se_tree, se_src)
     tr_tree, tr_src = py2v.load(os.path.join(repo, "sqlframe/base/transforms.py"))
     rn = rename_facts(tr_tree, tr_src)
+    hr = hash_rename_facts(df_tree, df_src)
     b = lambda x: "true" if x else "false"  # noqa: E731
     L = [
         "(* GENERATED from /repo on every run by translate/c13_facts.py -- do not edit *)",
         "From SF Require Import C13.Session.",
         f"Definition gen_cfg : cfg := mkCfg {b(early)} {b(reg['frozen'])} {b(reg['copy'])} {b(rd['views_first'])} "
-        f"{reg['norm']} {rd['norm']} {b(reg['assign_first'])} {b(sq['skip_own'])} {b(sq['user_only'])}.",
+        f"{reg['norm']} {rd['norm']} {b(reg['assign_first'])} {b(sq['skip_own'])} {b(sq['user_only'])} {b(sq['hash_user'])}.",
         "(* session.sql: lookup key <table>.name; target = last CTE of the view's chain; CTE names already present are",
         "   skipped; added CTEs follow the query's own; qualify (default True) runs first on the catalog's schema cache *)",
         "Definition splice_shape_recognised : bool := true.",
         "(* transforms.replace_id_value renames only identifiers that name a table (not part of the Coq model: CTE hash names) *)",
         f"Definition cte_rename_tables_only : bool := {b(rn['tables_only'])}.",
+        "(* dataframe._replace_cte_names_with_hashes keeps one of several CTEs with the same hash name and body *)",
+        f"Definition cte_hash_dedupe : bool := {b(hr['dedupe'])}.",
     ]
     facts = [
         {"name": "c_add_if_absent", "from": "catalog.py: _BaseCatalog.add_table (early return)", "value": early, "hash": h_add},
@@ -444,8 +505,9 @@ def generate(repo: str):
         {"name": "c_views_first/c_tbl_norm", "from": "readerwriter.py: _BaseDataFrameReader.table",
          "value": {k: rd[k] for k in ("views_first", "norm")}, "hash": rd["hash"]},
         {"name": "splice_shape_recognised/c_skip_own_ctes/c_user_refs_only", "from": "session.py: _BaseSession.sql",
-         "value": {"skip_own": sq["skip_own"], "user_only": sq["user_only"]}, "hash": sq["hash"]},
+         "value": {"skip_own": sq["skip_own"], "user_only": sq["user_only"], "hash_user": sq["hash_user"]}, "hash": sq["hash"]},
         {"name": "cte_rename_tables_only", "from": "transforms.py: replace_id_value", "value": rn["tables_only"], "hash": rn["hash"]},
+        {"name": "cte_hash_dedupe", "from": "dataframe.py: _replace_cte_names_with_hashes", "value": hr["dedupe"], "hash": hr["hash"]},
     ]
     return "\n".join(L) + "\n", facts
 
